@@ -13,7 +13,7 @@ THEOREMS = [(M, "NQ.C08." + n) for n in [
     "transpile_simulates_final_partial", "pad_is_set", "set_writes_gen",
     "templates_eq_nvdecomp", "expandSound_of_C07", "transpile_simulates_C07_partial",
     "mov_unknown_emits_ec", "f10_nonQ_register_asserts", "sets_only_scratch_gen", "seeded_scratch_registers",
-    "seeded_cache_violates_scratch_ok", "seeded_index_loop_head",
+    "seeded_cache_violates_scratch_ok", "seeded_index_loop_head", "branch_to_line_zero", "seeded_line_zero",
     "f10_counterexample_asserts", "f10_counterexample_stale", "f26_fixed_witness"]]
 TRANSLATORS = ["nv_expand", "nv_decomp"]
 LEVEL_TEXT = (
@@ -224,6 +224,65 @@ def run(ctx):
         oracle("corpus-target-is-cc", w_join, 3, debug=dbg)
         syntactic("corpus", w_head, dbg, False)
         syntactic("corpus", w_join, dbg, False)
+    # seeded change C08_7: a taken backward branch to LINE 0 (loop head = first instruction)
+    def Rr(i):
+        return H.reg(Rb, i)
+
+    def Qr(i):
+        return H.reg(Qb, i)
+    SET, ADD = "core.SetInstruction", "core.AddInstruction"
+    w0_init = [H.ins(SET, Rr(0), H.imm(0)), H.ins(SET, Rr(3), H.imm(0)), H.ins(SET, Qr(5), H.imm(1))]
+    w0_loop = [H.ins(SET, Rr(1), H.imm(1)), H.ins(SET, Rr(2), H.imm(3)),
+               H.ins(SET, Qr(0), H.imm(1)), H.ins("vanilla.GateTInstruction", Qr(0)),
+               H.ins(SET, Qr(0), H.imm(0)), H.ins("vanilla.GateHInstruction", Qr(0)),
+               H.ins(SET, Qr(0), H.imm(0)), H.ins(SET, Qr(1), H.imm(1)),
+               H.ins("vanilla.CnotInstruction", Qr(0), Qr(1)),
+               H.ins(ADD, Rr(0), Rr(0), Rr(1)), H.ins(ADD, Rr(3), Rr(3), Rr(0)),
+               H.ins("core.BltInstruction", Rr(0), Rr(2), H.imm(0)),
+               H.ins(SET, Qr(0), H.imm(1)), H.ins("vanilla.GateSInstruction", Qr(0))]
+    # the same with an expanded gate AS line 0 (its register comes from the previous subroutine)
+    w0_gate = [H.ins("vanilla.GateZInstruction", Qr(5))] + w0_loop[:11] + \
+              [H.ins("core.BltInstruction", Rr(0), Rr(2), H.imm(0))] + w0_loop[12:]
+
+    def oracle_subs(tag, subs, nq, debug):
+        script = [rng.randrange(2) for _ in range(6)]
+        st = H.random_state(rng, nq)
+        r = H.oracle_compare(subs, nq, script, st, debug=debug)
+        res.count("oracle:" + tag)
+        if r == "skip":
+            res.count("oracle-skip:" + tag)
+        elif r is not None:
+            res.failures.append({"what": r["what"], "kf": None,
+                                 "detail": {k: v for k, v in r.items() if k != "what"},
+                                 "input": {"program": subs, "text": [H.show(x) for x in subs], "nq": nq,
+                                           "script": script, "debug": debug,
+                                           "state": [[z.real, z.imag] for z in st]}})
+
+    for dbg in (False, True):
+        for loop in (w0_loop, w0_gate):
+            oracle_subs("corpus-target=0", [w0_init, loop], 2, dbg)
+            syntactic("corpus", loop, dbg, False)
+    # seeded change C08_8: two carbon-carbon gates with the same control and a label in between that is
+    # reached by a jump (the SDK's `with m.if_eq(0): q1.cnot(q2)` then `q1.cnot(q3)`), and a do-while
+    # whose head follows a carbon-carbon gate with the same control
+    def g2(name, a, b):
+        return [H.ins(SET, Qr(0), H.imm(a)), H.ins(SET, Qr(1), H.imm(b)), H.ins(name, Qr(0), Qr(1))]
+    CN, CP = "vanilla.CnotInstruction", "vanilla.CphaseInstruction"
+    for m in (0, 1):
+        w_cond = [H.ins(SET, Rr(0), H.imm(m)), H.ins(SET, Rr(2), H.imm(0)),
+                  H.ins(SET, Qr(0), H.imm(1)), H.ins("vanilla.GateHInstruction", Qr(0)),
+                  H.ins(SET, Qr(0), H.imm(0)), H.ins("vanilla.GateTInstruction", Qr(0)),
+                  H.ins("core.BneInstruction", Rr(0), Rr(2), H.imm(10))] + g2(CN, 1, 2) + g2(CN, 1, 3) + \
+                 [H.ins(SET, Qr(0), H.imm(2)), H.ins("vanilla.GateSInstruction", Qr(0))]
+        for dbg in (False, True):
+            oracle("corpus-cc-same-control-label", w_cond, 4, debug=dbg)
+            syntactic("corpus", w_cond, dbg, False)
+    w_dw = [H.ins(SET, Rr(1), H.imm(0)), H.ins(SET, Rr(2), H.imm(1)), H.ins(SET, Rr(3), H.imm(2)),
+            H.ins(SET, Qr(0), H.imm(1)), H.ins("vanilla.GateHInstruction", Qr(0))] + g2(CP, 1, 2) + \
+           g2(CN, 1, 3) + [H.ins(ADD, Rr(1), Rr(1), Rr(2)), H.ins("core.BltInstruction", Rr(1), Rr(3), H.imm(8))]
+    for dbg in (False, True):
+        oracle("corpus-cc-same-control-label", w_dw, 4, debug=dbg)
+        syntactic("corpus", w_dw, dbg, False)
     oracle("corpus-F10-assert", w_assert, 3, _G([(5, 0, 0)]))
     oracle("corpus-F10-stale", w_stale, 3, _G([(6, 0, 0)]))
     # F26 (fixed): branch across a carbon-carbon gate with debug markers
@@ -255,6 +314,16 @@ def run(ctx):
                                             else "struct"))
         syntactic(tag, js, dbg, rng.random() < 0.3)
         oracle(tag, js, nq, g, debug=dbg)
+    # ---- loops whose head is instruction 0 (taken backward branch to line 0), in a second subroutine
+    n_head0 = 2500 if T else 300
+    for k in range(n_head0):
+        nq = rng.choice([1, 2, 3, 4])
+        sub1, sub2, feats = H.head0_program(rng, nq)
+        for f in feats:
+            res.count("feature:" + f)
+        dbg = rng.random() < 0.5
+        syntactic("struct-head0", sub2, dbg, rng.random() < 0.3)
+        oracle_subs("struct-head0", [sub1, sub2], nq, dbg)
     flush_syntactic()
 
     # ---- instruction soup (malformed stream included): syntactic only
